@@ -90,15 +90,6 @@ theorem calls_of_a_balanced_function_never_block (p : List Stmt) (hb : balanced 
     | cont _ => simp [Out.clean] at hc
     | stuck => simp [Out.clean] at hc
 
-/-- the body of `addProtobufError` as it is: lock; path unknown → unlock, return; marshal error → unlock,
-    return; unlock -/
-def addErrorFixed : List Stmt :=
-  [.prim .lock, .alt [] [.prim .unlock, .ret], .alt [.prim .unlock, .ret] [], .prim .unlock]
-
-/-- the same with the unlock of the "path not found" exit dropped -/
-def addErrorDropped : List Stmt :=
-  [.prim .lock, .alt [] [.ret], .alt [.prim .unlock, .ret] [], .prim .unlock]
-
 example : balanced addErrorFixed = true := by decide
 
 /-- one error without a trace node followed by any other error: the second call never gets the mutex -/
@@ -106,9 +97,6 @@ theorem dropped_unlock_blocks_next_call_witness :
     balanced addErrorDropped = false ∧ Out.stuck ∈ calls addErrorDropped 2 0 := by decide
 
 /-! ## abandoned senders -/
-
-/-- `k` sends in a row -/
-def sends (k : Nat) : List Stmt := List.replicate k (.prim .send)
 
 theorem exec_sends (cap k h : Nat) (hh : h ≤ cap) :
     execL (chanSem cap) (sends k) h = if h + k ≤ cap then [.fall (h + k)] else [.stuck] := by
